@@ -160,7 +160,14 @@ class Driver:
         try:
             # the build name may also be given as None (unknown): a hole
             name = self.build_name if self.eng.choose('clean-name', 2) == 0 else None
-            self.FileBuilder.clean(w.cache, name)
+            cache = w.cache
+            if getattr(self, 'cache_spellings', False):
+                # the cache file name may be given as str, bytes or a path-like object
+                import os as _os
+                import pathlib as _pl
+                how = self.eng.choose('clean-cache-spelling', 3)
+                cache = [cache, _os.fsencode(cache), _pl.PurePosixPath(cache)][how]
+            self.FileBuilder.clean(cache, name)
             impl = ('ok', None)
         except (PathAbort, HarnessError):
             raise
